@@ -261,3 +261,16 @@ CHECKS["C16"] = dict(
         P("rand", "det", "TestC16Rand", dict(checks=16000, shards=8, timeout=900), dict(checks=1000000, shards=16, timeout=3400), rewrite=_E4_DIRS),
     ],
 )
+
+CHECKS["C06"] = dict(
+    level="exploration",
+    rule=("part 'enum': a catalogue of 12 tiny programs (writer||reader, overwrite||collector||reader, writers of different keys||GetKeys, delete||reader, RC commit||RU reader, rollback||RU reader, commits on different keys, in-transaction overwrite+commit||RU reader||collector, begin/write/commit||begin/write/rollback||writer, three writers, writer||collector||collector, RC read-own-write||writer) - the default schedule plus EVERY single forced preemption of the concurrent phase. "
+          "part 'rand': rapid-generated programs of 2-4 clients (autocommit clients, RU/RC transactions each driven by one client, a collector actor; 1-3 shared keys; a sequential prologue creating versions) x generated schedules (0-4 forced preemptions or a random-walk tape; the periodic collector's virtual timer may fire at any step). "
+          "Oracle: no deadlock, no panic; the call/return history (with logical timestamps, so real-time order is exact) plus an epilogue reading every key has a linearization accepted by the reference model - a lost or resurrected write, a key reported missing while it had a value, another key's or a partial content have none. "
+          "non-trivial = operations of different clients overlapped in logical time with a write/commit involved."),
+    assumptions=_E4_ASSUME + ["known finding C06-unpinned-read: a Get/GetKeys whose resolved content was removed by the collector/cleaner inside the read's interval is excused (the read's result becomes a wildcard in the linearizability search) - only when the hook trace shows exactly that removal"],
+    parts=[
+        P("enum", "det", "TestC06Enum", dict(checks=1, shards=8, split=False, timeout=900), dict(checks=1, shards=16, split=False, timeout=3000), rapid=False, rewrite=_E4_DIRS),
+        P("rand", "det", "TestC06Rand", dict(checks=400, shards=8, timeout=900), dict(checks=40000, shards=16, timeout=3400), rewrite=_E4_DIRS),
+    ],
+)
